@@ -372,23 +372,27 @@ def shrink(exe, mexe, case, still_bad, budget=150):
     """greedy removal of op tokens while the same kind of failure persists"""
     toks = case.split()
     nfix = 4 if toks[0] == "mp" else 2
-    head, ops = toks[:nfix], toks[nfix:]
+    head, ops, tail = toks[:nfix], toks[nfix:], []
+    if ops and ops[-1] == "free":
+        ops, tail = ops[:-1], ["free"]          # the final release stays (otherwise: a leak by construction)
     i = 0
     while i < len(ops) and budget > 0:
         cand = ops[:i] + ops[i + 1:]
         budget -= 1
-        c = " ".join(head + cand)
+        c = " ".join(head + cand + tail)
         impl, model, spec, capres, _ = run_all(exe, mexe, [c])
         if cand and still_bad(judge(c, impl[0], model[0], spec[0], capres[0])):
             ops = cand
         else:
             i += 1
-    return " ".join(head + ops)
+    return " ".join(head + ops + tail)
 
 
 def compare(ctx, sub, exe, mexe, cases, impl, model, spec, capres, max_report=4):
     nd = 0
     for c, i, m, s, k in zip(cases, impl, model, spec, capres):
+        if i.startswith("<no-output"):
+            continue                      # the shard died: reported with its input by crashes()
         j = judge(c, i, m, s, k)
         if j is None:
             continue
@@ -408,6 +412,41 @@ def compare(ctx, sub, exe, mexe, cases, impl, model, spec, capres, max_report=4)
         ctx.fail(sub, kind, small, detail, property_fails=pf)
     ctx.count(sub + ".disagreements", nd)
     return nd
+
+
+def crashes(ctx, sub, exe, cases, impl, st, max_report=2):
+    """A shard that died (sanitizer abort, signal) leaves '<no-output' lines: the first one of each run of
+    such lines is the case that killed it.  Re-run it alone, shrink it, report it with its input."""
+    bad = [i for i, l in enumerate(impl) if l.startswith("<no-output") and (i == 0 or not impl[i - 1].startswith("<no-output"))]
+    if not bad:
+        vlib.sanitizer_reports(ctx, sub, st)
+        return
+    def dies(c):
+        rc, out, err = vlib.run_lines(exe, c + "\n", env=ENV, timeout=60)
+        return (rc != 0 or not out), err
+    for i in bad[:max_report]:
+        c = cases[i]
+        d, err = dies(c)
+        if not d:
+            continue
+        toks = c.split()
+        nfix = 4 if toks[0] == "mp" else 2
+        head, ops = toks[:nfix], toks[nfix:]
+        k, budget = 0, 120
+        while k < len(ops) and budget > 0:
+            cand = ops[:k] + ops[k + 1:]
+            budget -= 1
+            if cand and dies(" ".join(head + cand))[0]:
+                ops = cand
+            else:
+                k += 1
+        c = " ".join(head + ops)
+        err = dies(c)[1]
+        import re
+        m = re.search(r"(ERROR: AddressSanitizer[^\n]*|[^\n]*runtime error:[^\n]*|ERROR: LeakSanitizer[^\n]*|[^\n]*Assertion[^\n]*)", err)
+        ctx.fail(sub, "sanitizer" if m else "crash", c, (m.group(1) if m else "driver died: " + err[-300:])[:400], property_fails=True)
+    if len(bad) > max_report:
+        ctx.count(sub + ".more-crashing-cases", len(bad) - max_report)
 
 
 def corpus_cases(prefixes):
@@ -452,8 +491,8 @@ def run_kind(ctx, sub, gen, nq, nt, lo, hi, rule):
     if not cases:
         return
     impl, model, spec, capres, st = run_all(exe, mexe, cases)
-    vlib.sanitizer_reports(ctx, sub, st)
-    compare(ctx, sub, exe, mexe, cases, impl, model, spec, capres)
+    crashes(ctx, sub, exe, cases, impl, st)
+    compare(ctx, sub, exe, mexe, cases, [l for l in impl], model, spec, capres)
     ctx.record(sub, cases, nontrivial(cases, impl), rule, samples=[cases[0][:300], cases[-1][:300]])
     return exe, mexe, cases, impl
 
@@ -523,6 +562,22 @@ def count_requests(impl):
     return sum(1 for g in allocs.split(";") for t in g.split(",") if t and t[0] in "mr")
 
 
+def rare_request_indices(case, impl):
+    """1-based indices of the requests made inside ops that cannot fail or fail rarely (shrink, delete,
+    truncate, export, pool free): the sampled failure points always include some of them."""
+    ops = case.split()[2:]
+    if case.startswith("mp "):
+        ops = ops[2:]
+    out, idx = [], 0
+    for op, g in zip(ops, sections(impl)[2].split(";")):
+        for t in g.split(","):
+            if t and t[0] in "mr":
+                idx += 1
+                if op.split(":")[0] in ("shr", "del", "trunc", "exp", "dup", "f", "res"):
+                    out.append(idx)
+    return out
+
+
 def with_mode(case, mode):
     t = case.split()
     t[1] = mode
@@ -540,7 +595,7 @@ def check_ds_allocfail(ctx):
         cases = rc
     else:
         base = []
-        nb = ctx.n(60, 400)
+        nb = ctx.n(150, 600)
         for _ in range(nb):
             base.append(gen_ea_case(ctx, r, r.randrange(4, 30)))
             base.append(gen_eq_case(ctx, r, r.randrange(4, 60)))
@@ -549,15 +604,18 @@ def check_ds_allocfail(ctx):
             base.append(gen_mp_case(ctx, r, r.randrange(3, 25)))
         # 1. count the allocations of each base case
         impl0, st0 = vlib.run_sharded(exe, base, env=ENV)
-        vlib.sanitizer_reports(ctx, sub, st0)
+        crashes(ctx, sub, exe, base, impl0, st0)
         cases = corpus_cases(["ea", "eq", "spm", "mp"])
         cases = [c for c in cases if c.split()[1] != "n"]
         for c, i in zip(base, impl0):
+            if i.startswith("<no-output"):
+                continue
             n = count_requests(i)
             ctx.count("allocfail.base-requests", n)
             ks = list(range(1, n + 2))
             if ctx.quick and len(ks) > 6:
-                ks = sorted(set([1, 2, n, n + 1] + r.sample(ks, 4)))
+                rare = rare_request_indices(c, i)
+                ks = sorted(set([1, 2, n, n + 1] + r.sample(ks, 3) + r.sample(rare, min(3, len(rare)))))
             for k in ks:
                 cases.append(with_mode(c, "o%x" % k))
                 cases.append(with_mode(c, "f%x" % k))
@@ -566,7 +624,7 @@ def check_ds_allocfail(ctx):
     if not cases:
         return
     impl, model, spec, capres, st = run_all(exe, mexe, cases)
-    vlib.sanitizer_reports(ctx, sub, st)
+    crashes(ctx, sub, exe, cases, impl, st)
     compare(ctx, sub, exe, mexe, cases, impl, model, spec, capres)
     # what was exercised
     for c, i in zip(cases, impl):
